@@ -604,7 +604,7 @@ func (c *child) do(line string) string {
 		}
 		err := modules.ManageModules()
 		c.waitCtrlIdle()
-		return fmt.Sprintf("manage ret=%s reps=%s st=%s", ctrlRetStr(err), c.drain(), c.statuses())
+		return fmt.Sprintf("manage ret=%s reps=%s st=%s", ctrlRetStr(err), c.drainSorted(), c.statuses())
 
 	case "shutdown":
 		if len(f) != 1 || !c.started {
@@ -1010,7 +1010,7 @@ func (c *child) finish(it *item) string {
 		time.Sleep(2 * time.Millisecond) // give the queue handler's watcher goroutine time to read t.ctx (see body)
 	}
 	it.release <- struct{}{}
-	ret, httpS, next, exec := "-", "-", "-", "-"
+	ret, httpS, next, exec, syn := "-", "-", "-", "-", "ok"
 	it.mu.Lock()
 	o := it.lastOut
 	it.mu.Unlock()
@@ -1020,14 +1020,14 @@ func (c *child) finish(it *item) string {
 		case err := <-it.done:
 			ret = retStr(err, o)
 		case <-time.After(finishTimeout):
-			ret = "noreturn"
+			ret, syn = "noreturn", "timeout"
 		}
 	case strings.HasPrefix(it.kind, "api-"):
 		select {
 		case code := <-it.http:
 			httpS = strconv.Itoa(code)
 		case <-time.After(finishTimeout):
-			httpS = "noreturn"
+			httpS, syn = "noreturn", "timeout"
 		}
 	case it.kind == "svc":
 		// either the service worker runs its function again, or it ends (worker counter drops)
@@ -1042,7 +1042,7 @@ func (c *child) finish(it *item) string {
 				it.held = true
 				break loop
 			case <-deadline:
-				next = "timeout"
+				next, syn = "timeout", "timeout"
 				break loop
 			case <-tick.C:
 				if c.counters().w < before.w {
@@ -1059,18 +1059,24 @@ func (c *child) finish(it *item) string {
 			}
 		}
 	case strings.HasPrefix(it.kind, "task-"):
-		waitUntil(finishTimeout, func() bool { return c.counters().t < before.t })
+		if !waitUntil(finishTimeout, func() bool { return c.counters().t < before.t }) {
+			syn = "timeout"
+		}
 		if waitUntil(finishTimeout, func() bool { return !it.task.VerifC06Executing() }) {
 			exec = "false"
 			it.busy = false
 		} else {
-			exec = "true"
+			exec, syn = "true", "timeout"
 		}
 	case strings.HasPrefix(it.kind, "mt-start-"):
-		waitUntil(finishTimeout, func() bool { k := c.counters(); return k.m < before.m && k.g < before.g })
+		if !waitUntil(finishTimeout, func() bool { k := c.counters(); return k.m < before.m && k.g < before.g }) {
+			syn = "timeout"
+		}
 	default: // startworker, hooks: worker counter drops
-		waitUntil(finishTimeout, func() bool { return c.counters().w < before.w })
+		if !waitUntil(finishTimeout, func() bool { return c.counters().w < before.w }) {
+			syn = "timeout"
+		}
 	}
-	return fmt.Sprintf("finish ret=%s http=%s next=%s exec=%s reps=%s last=%s cnt=%s", ret, httpS, next, exec,
+	return fmt.Sprintf("finish ret=%s http=%s next=%s exec=%s sync=%s reps=%s last=%s cnt=%s", ret, httpS, next, exec, syn,
 		c.drain(), repStr(modules.GetLastReportedError()), c.counters())
 }
